@@ -2180,7 +2180,9 @@ func generateRewrites(path string, proxy *conf_v1.ActionProxy, internal bool, or
 	}
 
 	trimmedPath := strings.TrimPrefix(strings.TrimPrefix(path, "~"), "*")
-	trimmedPath = strings.TrimSpace(trimmedPath)
+	// only the blanks between the modifier and the expression are dropped: a blank at the end belongs to the expression
+	// (it may be the one a trailing backslash escapes)
+	trimmedPath = strings.TrimLeft(trimmedPath, " \t\n\v\f\r")
 
 	var rewrites []string
 
